@@ -144,6 +144,25 @@ def run(ctx):
             others = sorted(x for x in s['sources'] if x[1] != 'attrval')
             ctx.check(bool(s['sources']) and not others, 'C15.R5', key + '|value-provenance', site, 'stored value %s derives from the request attribute value' % sorted(s['values']),
                       'the stored value %s does not derive solely from the request attribute value (sources %s)' % (sorted(s['values']), sorted(s['sources'])))
+
+    # ---------------- R6 no row sharing: what is linked into an object's collection is freshly built from the request, never a row fetched from the store
+    ctx.rule('C15.R6', 'elements added to a managed object\'s multi-valued collections (names, object groups, application specific information) are freshly constructed; '
+                       'a row obtained from the store is never linked into another object (in-place modification through one object would change the other)')
+    n_add = 0
+    shared = {}
+    for e in ai.events:
+        if e['kind'] != 'mutation' or e['how'] not in ('append', 'extend', 'insert', 'setitem'):
+            continue
+        n_add += 1
+        bad = [x for x in e['sources'] if x[1] in ('other:query',)]
+        if bad:
+            shared.setdefault((e['ctx'][0], e['fn'], e['line'], e['field']), set()).update(x[0] for x in bad)
+    ctx.count('collection_stores', n_add, 5)
+    for (root, fn, line, field), names in sorted(shared.items()):
+        ctx.fail('C15.R6', 'KmipEngine.%s|shares-stored-row %s|via %s' % (fn, field, root), '%s:%s KmipEngine.%s' % (ENGINE, line, fn),
+                 'a value taken from the object store (%s) is linked into field %s of a managed object: two objects then share one row, and changing the attribute on one changes it on the other' % (sorted(names), field))
+    if not shared:
+        ctx.ok('C15.R6', ENGINE, 'all %d stores/appends use freshly built values' % n_add)
     for root, fields in sorted(effect.items()):
         ctx.note('effect set of %s: %s' % (root, sorted(fields)))
     ctx.analysed['effect_sets'] = {r: sorted(f) for r, f in effect.items()}
